@@ -1,4 +1,80 @@
 package main
 
-// solveResult is completed with the C20 check.
-func solveResult(e *enc, c *GeomCase, roots []float64, rootsNil bool) {}
+import (
+	"math"
+	"math/big"
+)
+
+// solveResult measures the solver's answer against the real roots the case was built from, with exact
+// rational arithmetic: for every expected root the distance to the nearest returned value ("miss"), for
+// every returned value the distance to the nearest expected root ("extra"), both in units of
+// 1e-7 * max(1, |expected root|), floored and capped at 1e6. The TLA+ predicate RootsOK judges them.
+func solveResult(e *enc, c *GeomCase, roots []float64, rootsNil bool) {
+	const cap = 1000000
+	unit := func(r *big.Rat) *big.Rat { // 1e-7 * max(1, |r|)
+		a := new(big.Rat).Abs(r)
+		if a.Cmp(big.NewRat(1, 1)) < 0 {
+			a = big.NewRat(1, 1)
+		}
+		return a.Mul(a, big.NewRat(1, 10000000))
+	}
+	dist := func(x float64, r *big.Rat) int {
+		if math.IsNaN(x) || math.IsInf(x, 0) {
+			return cap
+		}
+		xr := new(big.Rat).SetFloat64(x)
+		d := new(big.Rat).Sub(xr, r)
+		d.Abs(d)
+		d.Quo(d, unit(r))
+		if d.Cmp(big.NewRat(cap, 1)) >= 0 {
+			return cap
+		}
+		f, _ := d.Float64()
+		return int(math.Floor(f))
+	}
+	exp := make([]*big.Rat, len(c.Roots))
+	for i, r := range c.Roots {
+		exp[i] = big.NewRat(int64(r[0]), int64(r[1]))
+	}
+	e.s(`,"miss":[`)
+	for i, r := range exp {
+		if i > 0 {
+			e.s(",")
+		}
+		best := cap
+		for _, x := range roots {
+			if d := dist(x, r); d < best {
+				best = d
+			}
+		}
+		e.i(best)
+	}
+	e.s(`],"extra":[`)
+	mults := make([]int, len(roots))
+	for j, x := range roots {
+		if j > 0 {
+			e.s(",")
+		}
+		best := cap
+		mults[j] = 1
+		for i, r := range exp {
+			if d := dist(x, r); d < best {
+				best = d
+				if len(c.Roots[i]) > 2 {
+					mults[j] = c.Roots[i][2]
+				}
+			}
+		}
+		e.i(best)
+	}
+	e.s(`],"extram":`)
+	e.ints(mults)
+	e.s(`,"nret":`)
+	e.i(len(roots))
+	e.s(`,"nil":`)
+	if rootsNil {
+		e.s("1")
+	} else {
+		e.s("0")
+	}
+}
